@@ -668,7 +668,7 @@ func famAttest(e *env) {
 	ck := e.chain.App.GetIBCKeeper().ClientKeeper
 
 	// verifySignatures alone (hook), with arbitrary type tags
-	n := hx.N(260, 8000)
+	n := hx.N(200, 1600)
 	for i := 0; i < n; i++ {
 		h := &attHist{e: e, cdc: cdc, ck: ck, recs: map[string][3]any{}, keccaks: map[string]string{}, decP: map[string]any{}, decS: map[string]any{},
 			tags: []attestations.AttestationType{1, 2, 0, 3}}
@@ -732,7 +732,7 @@ func famAttest(e *env) {
 			"tag": int(checkTag), "recover": recs}, res, note)
 	}
 
-	m := hx.N(81, 2700)
+	m := hx.N(63, 504)
 	for i := 0; i < m; i++ {
 		ctx, _ := e.ctx.CacheContext()
 		h := &attHist{e: e, cdc: cdc, ck: ck, ctx: ctx, recs: map[string][3]any{}, keccaks: map[string]string{}, decP: map[string]any{}, decS: map[string]any{},
